@@ -1,5 +1,5 @@
 /- What `relabel` does to the heights: it sorts them (stably) and changes nothing else about them. -/
-import Kodama.Model.UnionFind
+import Kodama.Model.Relabel
 import Kodama.Laws
 import Kodama.Lemmas.Except
 import Kodama.Lemmas.Sort
@@ -87,7 +87,7 @@ theorem sortSteps_sorted (L : OrderLaws α) (steps steps' : Array (Step α))
       | _ :: _ :: _, hl => simp at hl
 
 theorem relabel_sorted (L : OrderLaws α) (m : Method) (hm : m.requiresSorting = true)
-    (d d' : Dendrogram α) (uf : UF) (h : relabel m d = .ok (uf, d')) :
+    (d d' : Dendrogram α) (uf0 uf : UF) (h : relabel m uf0 d = .ok (uf, d')) :
     (heights d'.steps).Pairwise HLe := by
   unfold relabel at h
   simp only [hm, if_true, bind_ok, pure_ok] at h
